@@ -311,6 +311,8 @@ pub struct AProg {
     pub st: ScalarType,
     pub shape: Vec<u64>, // empty = scalar
     pub ops: Vec<AOp>,
+    /// if non-empty: the output is CreateTuple of these nodes (otherwise the last node)
+    pub out_tuple: Vec<usize>,
 }
 
 impl AProg {
@@ -334,6 +336,9 @@ impl AProg {
                 AOp::Sub(a, b) => format!(" n{}=n{}-n{}", i, a, b),
                 AOp::Mul(a, b) => format!(" n{}=n{}*n{}", i, a, b),
             };
+        }
+        if !self.out_tuple.is_empty() {
+            s += &format!(" out=tuple{:?}", self.out_tuple);
         }
         s
     }
@@ -360,7 +365,11 @@ impl AProg {
             };
             nodes.push(n);
         }
-        nodes.last().unwrap().set_as_output()?;
+        if self.out_tuple.is_empty() {
+            nodes.last().unwrap().set_as_output()?;
+        } else {
+            g.create_tuple(self.out_tuple.iter().map(|i| nodes[*i].clone()).collect())?.set_as_output()?;
+        }
         g.finalize()?;
         c.set_main_graph(g)?;
         c.finalize()?;
@@ -393,7 +402,7 @@ pub fn gen_aprog(rng: &mut Rng, max_ops: usize, scalar_only: bool) -> AProg {
         let n = ops.len();
         ops.push(AOp::Add(n - 1, 0));
     }
-    AProg { st, shape, ops }
+    AProg { st, shape, ops, out_tuple: vec![] }
 }
 
 pub fn gen_inputs_for(rng: &mut Rng, types: &[Type]) -> Vec<Value> {
